@@ -44,6 +44,14 @@ func (cache *TxCache) VerifUnlockSweep() {
 	cache.sweepingMutex.Unlock()
 }
 
+// VerifSweepNow runs, in the caller's goroutine, the very sweep that SelectTransactions starts asynchronously
+// (thin wrapper around sweepSweepable; it takes the sweeping mutex itself, so it must not be called between
+// VerifLockSweep and VerifUnlockSweep). When it returns, every sweep of the senders collected so far is complete,
+// no matter whether the asynchronous goroutine or the caller performed it.
+func (cache *TxCache) VerifSweepNow() {
+	cache.sweepSweepable()
+}
+
 // VerifSnapshot enumerates the sender lists (each under its own mutex), the hash index and the counters
 func (cache *TxCache) VerifSnapshot() VerifSnapshotData {
 	out := VerifSnapshotData{}
